@@ -1,4 +1,5 @@
 CONSTANTS GRAPHS <- GraphsC5
+NORMALIZE = FALSE
 INIT Init
 NEXT Next
 INVARIANT InvNoPanic
